@@ -48,8 +48,7 @@ def chunkSize (s : Src) (req : Nat) : Nat :=
   let want := match s.sched with
     | [] => req
     | l => l.getD (s.calls % l.length) req
-  let k := if want == 0 then 1 else want
-  if k > req then req else k
+  min req (max 1 want)
 
 /-- one `Read(p)` with `len p = req ≥ 1` -/
 def read (s : Src) (req : Nat) : List UInt8 × Option IOErr × Src :=
